@@ -28,6 +28,10 @@ func c20Magefile(token string, status int) string {
 	return "//go:build mage\n\npackage main\n\nimport (\n\t\"fmt\"\n\n\t\"github.com/magefile/mage/mg\"\n)\n\nvar _ = mg.Verbose\n\nfunc Token() error { " + body + " }\n"
 }
 
+// a second magefile with the same bytes in every directory (a shared helper file copied into each project): the cache
+// entry must still be told apart by the file that differs
+const c20Shared = "//go:build mage\n\npackage main\n\nfunc sharedHelper() int { return 1 }\n"
+
 func c20(c *Ctx) {
 	r := c.R
 	mageBin := filepath.Join(os.Getenv("VERIF_BIN"), "mage")
@@ -66,7 +70,7 @@ func c20(c *Ctx) {
 				tok = tokens[round%len(tokens)]
 			}
 			d := filepath.Join(base, fmt.Sprintf("d%d", i))
-			writeFiles(d, map[string]string{"go.mod": goMod("c20p"), "magefile.go": c20Magefile(tok, statusOf[tok])})
+			writeFiles(d, map[string]string{"go.mod": goMod("c20p"), "magefile.go": c20Magefile(tok, statusOf[tok]), "zz_shared.go": c20Shared})
 			procs[i] = &proc{dir: d, token: tok, hashfast: r.Chance(1, 2), force: r.Chance(1, 8)}
 		}
 		// warm the cache for some contents
@@ -149,8 +153,8 @@ func c20(c *Ctx) {
 			}
 		}
 		dA, dB := filepath.Join(base, "dA"), filepath.Join(base, "dB")
-		writeFiles(dA, map[string]string{"go.mod": goMod("c20p"), "magefile.go": c20Magefile(tokA, statusOf[tokA])})
-		writeFiles(dB, map[string]string{"go.mod": goMod("c20p"), "magefile.go": c20Magefile(tokB, statusOf[tokB])})
+		writeFiles(dA, map[string]string{"go.mod": goMod("c20p"), "magefile.go": c20Magefile(tokA, statusOf[tokA]), "zz_shared.go": c20Shared})
+		writeFiles(dB, map[string]string{"go.mod": goMod("c20p"), "magefile.go": c20Magefile(tokB, statusOf[tokB]), "zz_shared.go": c20Shared})
 		p1After := i%4 < 2 || r.Bool()  // held after the build (the first rounds) or before it
 		p2Held := i%4 == 0 || r.Bool()   // P2 held before its build while P1 finishes
 		hfA, hfB := r.Bool(), r.Bool()
@@ -275,7 +279,7 @@ func c20(c *Ctx) {
 	for i := 0; i < 1+c.N/10; i++ {
 		base := filepath.Join(root, fmt.Sprintf("same%d", i))
 		d := filepath.Join(base, "proj")
-		writeFiles(d, map[string]string{"go.mod": goMod("c20s"), "magefile.go": c20Magefile("alpha", 0)})
+		writeFiles(d, map[string]string{"go.mod": goMod("c20s"), "magefile.go": c20Magefile("alpha", 0), "zz_shared.go": c20Shared})
 		env := baseEnv(home)
 		for k, e := range env {
 			if strings.HasPrefix(e, "MAGEFILE_CACHE=") {
